@@ -237,3 +237,5 @@ def run(F, S, R, tier):
         else:
             R.bad("prov/startup/main-chain", "start-up no longer reads main-chain blocks by number", [ip.where()])
     R.guard("mustcall/startup", startup)
+    import common as _common
+    _common.effects(R, F, ['proposal-table'])
